@@ -3,7 +3,7 @@
    (gen/SrcWasmFull.v), against Wasm.v: for slices of every length, every state and every build profile. *)
 From Coq Require Import NArith List String Bool Arith Lia.
 From HW Require Import Word Chunks Packet Mem Stream X86 Portable Wasm.
-From HW.Refine Require Import ChunksFacts SourceTie SourceTieAppend PacketTie SourceTieWasmFull.
+From HW.Refine Require Import ChunksFacts StreamRefine SourceTie SourceTieAppend PacketTie SourceTieWasmFull.
 From HW.Facts Require Import RustLite.
 From HWGen Require Import SrcPacket SrcWasmFull.
 Import ListNotations.
@@ -44,6 +44,14 @@ Definition ret_of (r : callres) : res (option val) :=
   match r with Ok (_, _, rv) => Ok rv | Panic => Panic | Fault => Fault end.
 Definition lift_ret {A} (r : res A) (k : A -> val) : res (option val) :=
   match r with Ok a => Ok (Some (k a)) | Panic => Panic | Fault => Fault end.
+
+(* what the tie needs of the pending buffer: 32 bytes, each below 256, and a usize index *)
+Definition wfpb (b : packet) : Prop := wfp b /\ wbytesb (buf b) = true.
+Lemma as_slice_bytes p b sl : wbytesb (buf b) = true -> as_slice p b = Ok sl -> wbytesb sl = true.
+Proof.
+  intros H. unfold as_slice. destruct (dbg p && (32 <? Packet.idx b)%nat); [discriminate|].
+  intros E. injection E as <-. destruct (Packet.idx b <=? 32)%nat; [apply wbytesb_firstn; exact H|exact H].
+Qed.
 
 Lemma t32_idem x : N.land (N.land x M32) M32 = N.land x M32.
 Proof. rewrite <- N.land_assoc. reflexivity. Qed.
@@ -95,12 +103,49 @@ Lemma w_load_multiple_of_four_src fuel g bytes : (List.length bytes <= 16)%nat -
   = lift (w_load_multiple_of_four bytes) (fun r => (g, [Some (VA bytes)], Some (VX r))).
 Proof. intros H. enum_list bytes 17%nat; [wbl; reflexivity ..|]. cbn [List.length] in H. lia. Qed.
 
-(* ---- remainder(bytes) -> (packetH, packetL) *)
-Lemma w_remainder_src fuel g bytes :
+(* ---- internal::unordered_load3 and V2x64U::new under this table *)
+Lemma w_ul3_src fuel g from : (List.length from <= 3)%nat -> wbytesb from = true ->
+  call (S fuel) "unordered_load3" g [VA from] = lift (unordered_load3 p from) (fun r => (g, [Some (VA from)], Some (VN r))).
+Proof. intros H1 H2. pkt_via run_unordered_load3; assumption. Qed.
+Lemma w_new2_src fuel g a b :
+  call (S fuel) "V2x64U::new" g [VN a; VN b] = Ok (g, [Some (VN a); Some (VN b)], Some (VX (w_u64x2 a b))).
+Proof. wl. reflexivity. Qed.
+
+Ltac bytes_hyps HB :=
+  cbn [wbytesb forallb] in HB; rewrite ?andb_true_iff in HB;
+  repeat match type of HB with _ /\ _ => let H := fresh "Hb" in destruct HB as [H HB] end.
+Ltac use_bytes := cbn [wbytesb forallb]; repeat match goal with H : w8b _ = true |- _ => rewrite H; clear H end; reflexivity.
+Ltac run_to_call :=
+  match goal with |- context [call_fn p (wext p) wall_fns ?f] =>
+    let C := fresh "CALL" in let E := fresh "EC" in
+    remember (call_fn p (wext p) wall_fns f) as C eqn:E;
+    cbv -[le_bytes w_u64x2 w_u32x4 v128_or v128_and u64x2_shuffle i32x4_replace_lane_1 unordered_load3];
+    subst C
+  end.
+
+(* ---- remainder(bytes) -> (packetH, packetL), for a slice of bytes of ANY length: below 16 bytes the path through
+        load_multiple_of_four and unordered_load3 is stepped call by call; from 16 bytes on it is run as a whole *)
+Ltac fin_cbv := cbv -[le_bytes w_u64x2 w_u32x4 v128_or v128_and u64x2_shuffle i32x4_replace_lane_1 unordered_load3]; reflexivity.
+Ltac rem_small HB :=
+  bytes_hyps HB; rewrite wcall_step; run_to_call;
+  rewrite w_load_multiple_of_four_src by (cbn [List.length]; lia);
+  run_to_call;
+  rewrite w_ul3_src by (first [cbn [List.length]; lia | use_bytes]);
+  match goal with |- context [unordered_load3 p ?r] => destruct (unordered_load3 p r) as [x| |] end;
+  [run_to_call; rewrite w_new2_src; fin_cbv | fin_cbv | fin_cbv].
+
+Lemma w_remainder_src fuel g bytes : wbytesb bytes = true ->
   call (S (S (S (S (S fuel))))) "WasmHash::remainder" g [VA bytes]
   = lift (w_remainder p bytes) (fun r => (g, [Some (VA bytes)], Some (VTV [fst r; snd r]))).
-Proof. destruct p as [[|] [|]]; enum_list bytes 33%nat; wbl; reflexivity. Qed.
-
+Proof.
+  intros HB. enum_list bytes 16%nat.
+  1: rem_small HB.
+  1: rem_small HB.
+  1: rem_small HB.
+  1: rem_small HB.
+  1-12: rem_small HB.
+  clear HB. destruct p as [[|] [|]]; enum_list bytes 17%nat; wbl; reflexivity.
+Qed.
 
 Ltac step L := rewrite L; next_call.
 
@@ -134,11 +179,11 @@ Proof.
 Qed.
 
 (* ---- update_remainder(&mut self) *)
-Lemma w_update_remainder_src fuel c b : wfp b ->
+Lemma w_update_remainder_src fuel c b : wfpb b ->
   call (S (S (S (S (S (S fuel)))))) "WasmHash::update_remainder" (wgenv_of c b) []
   = lift (w_update_remainder p {| w_core := c; w_buffer := b |}) (fun c' => (wgenv_of c' b, [], None)).
 Proof.
-  intros [Hlen Hidx]. destruct c as [a0 a1 a2 a3 a4 a5 a6 a7].
+  intros [[Hlen Hidx] Hby]. destruct c as [a0 a1 a2 a3 a4 a5 a6 a7].
   rewrite wcall_step. next_call.
   fold_penv b. step wpkt_len_ok.
   step w_from_src. step w_add_assign_src. step w_from_src. step w_add_assign_src.
@@ -150,8 +195,8 @@ Proof.
     destruct (w_rotate_32_by p X size) as [c1| |]; unfold lift; cbn [bind]; [|reflexivity|reflexivity] end.
   next_call.
   fold_penv b. rewrite (wpkt_as_slice_ok _ _ Hlen). unfold plift.
-  destruct (as_slice p b) as [sl| |]; cbn [bind]; [|reflexivity|reflexivity].
-  next_call. rewrite w_remainder_src. unfold lift.
+  destruct (as_slice p b) as [sl| |] eqn:Esl; cbn [bind]; [|reflexivity|reflexivity].
+  next_call. rewrite (w_remainder_src _ _ _ (as_slice_bytes p b sl Hby Esl)). unfold lift.
   destruct (w_remainder p sl) as [[pH pL]| |]; cbn [bind fst snd]; [|reflexivity|reflexivity].
   next_call. fold_wenv c1 b. rewrite w_update_src. next_call. reflexivity.
 Qed.
@@ -160,7 +205,7 @@ Qed.
 Ltac pau X e := fold_wenv X e; rewrite w_permute_and_update_src; next_call.
 Ltac paus n X e := lazymatch n with O => idtac | S ?m => pau X e; paus m (w_permute_and_update X) e end.
 
-Lemma w_finalize64_src fuel c b : wfp b ->
+Lemma w_finalize64_src fuel c b : wfpb b ->
   ret_of (call (S (S (S (S (S (S (S fuel))))))) "WasmHash::finalize64" (wgenv_of c b) [])
   = lift_ret (w_finalize64 p {| w_core := c; w_buffer := b |}) VN.
 Proof.
@@ -175,7 +220,7 @@ Proof.
     cbn [bind iter ret_of]. reflexivity.
 Qed.
 
-Lemma w_finalize128_src fuel c b : wfp b ->
+Lemma w_finalize128_src fuel c b : wfpb b ->
   ret_of (call (S (S (S (S (S (S (S fuel))))))) "WasmHash::finalize128" (wgenv_of c b) [])
   = lift_ret (w_finalize128 p {| w_core := c; w_buffer := b |}) (fun lh => VA [fst lh; snd lh]).
 Proof.
@@ -193,7 +238,7 @@ Qed.
 Ltac fin256 := step w_add_src; step w_add_src; step w_add_src; step w_add_src;
     step w_modular_reduction_src; step w_modular_reduction_src;
     cbn [bind iter ret_of]; cbv beta iota zeta delta [ll lane0 lane1 lane2 lane3 fst snd]; reflexivity.
-Lemma w_finalize256_src fuel c b : wfp b ->
+Lemma w_finalize256_src fuel c b : wfpb b ->
   ret_of (call (S (S (S (S (S (S (S fuel))))))) "WasmHash::finalize256" (wgenv_of c b) [])
   = lift_ret (w_finalize256 p {| w_core := c; w_buffer := b |}) (fun l => VA (ll l)).
 Proof.
